@@ -98,6 +98,10 @@ func (t Thing) IsOpen() bool      { return true }
 func (t *Thing) HasKids() bool    { return true }
 func (t Thing) GetCount() int     { return -1 }
 
+// exported names need not begin with an ASCII letter
+func (t *Thing) Étiquette() string { return "étiquette" }
+func (t Thing) Ωmega() string      { return "omega" }
+
 func (t Thing) hiddenMethod() string { return "h" }
 
 // NewThing builds a populated Thing.
@@ -166,6 +170,8 @@ func Scalars() []Named {
 		N("*big.Int", big.NewInt(42)), N("big.Float", *big.NewFloat(1.5)), N("url.URL", url.URL{Scheme: "http", Host: "h"}), N("net.IP", net.IP{127, 0, 0, 1}), N("os.FileMode", os.FileMode(0o644)),
 		N("String promoted from a nil pointer 3 levels down", Deep2{}), N("String promoted from a nil pointer 9 levels down", Deep8{}), N("String promoted from a nil pointer 13 levels down", Deep12{}), N("*String promoted from a nil pointer 10 levels down", &Deep9{}),
 		N("Number promoted from a nil interface 10 levels down", DeepI9{}), N("Number promoted from a nil interface 13 levels down", &DeepI12{}),
+		N("nil slice of a type with String", KindSlice(nil)), N("nil map of a type with String", KindMap(nil)), N("nil map of a type with Number", NilableNum(nil)), N("map of a type with Number", NilableNum{"a": 1}),
+		N("nil func of a type with Boolean", NilableBool(nil)), N("func of a type with Boolean", NilableBool(func() bool { return true })),
 		NilSafePointer(), N("embeds a nil SafeValue", EmbedsSafe{Tag: "t"}), N("*embeds a nil SafeValue", &EmbedsSafe{}), N("embeds a SafeValue", EmbedsSafe{SafeValue: stick.NewSafeValue("es", "html")}),
 		N("nil *time.Time", (*time.Time)(nil)), N("*time.Time", func() *time.Time { t := time.Date(2020, 2, 29, 23, 59, 59, 0, time.UTC); return &t }()), N("nil *big.Int", (*big.Int)(nil)), N("nil *big.Float", (*big.Float)(nil)), N("nil *url.URL", (*url.URL)(nil)),
 		N("nil *decimal.Decimal", (*decimal.Decimal)(nil)), N("*decimal.Decimal", func() *decimal.Decimal { d := decimal.NewFromFloat(2.5); return &d }()), N("nil *json.Number", (*json.Number)(nil)), N("nil *time.Duration", (*time.Duration)(nil)), N("nil *net.IP", (*net.IP)(nil)), N("nil *[]byte", (*[]byte)(nil)), N("nil *error", (*error)(nil)),
@@ -249,7 +255,7 @@ func Keys() []Named {
 	return []Named{
 		N("'a'", "a"), N("'k'", "k"), N("'1'", "1"), N("'0'", "0"), N("'Name'", "Name"), N("'hidden'", "hidden"), N("'ValueMethod'", "ValueMethod"), N("'PtrMethod'", "PtrMethod"),
 		N("'Add'", "Add"), N("'Variadic'", "Variadic"), N("'Join'", "Join"), N("'Fmt'", "Fmt"), N("'Two'", "Two"), N("'Nothing'", "Nothing"), N("'NilFunc'", "NilFunc"), N("'Fn'", "Fn"), N("'TakesPtr'", "TakesPtr"), N("'TakesUint'", "TakesUint"), N("'TakesInt8'", "TakesInt8"), N("'TakesUint8'", "TakesUint8"),
-		N("'TakesIface'", "TakesIface"), N("'TakesFloat'", "TakesFloat"), N("'TakesSlice'", "TakesSlice"), N("'Concat'", "Concat"), N("'hiddenMethod'", "hiddenMethod"), N("'missing'", "missing"), N("''", ""), NilSafePointer(), N("embeds a nil SafeValue as key", EmbedsSafe{}), N("opinionated safe 1", OpinionatedSafe{Inner: 1}), N("'Secret'", "Secret"), N("'secret'", "secret"), N("'Open'", "Open"), N("'Kids'", "Kids"), N("'GetSecret'", "GetSecret"), N("'IsOpen'", "IsOpen"), N("'HasKids'", "HasKids"), N("'Get'", "Get"), N("'count'", "count"),
+		N("'TakesIface'", "TakesIface"), N("'TakesFloat'", "TakesFloat"), N("'TakesSlice'", "TakesSlice"), N("'Concat'", "Concat"), N("'hiddenMethod'", "hiddenMethod"), N("'missing'", "missing"), N("''", ""), N("'Étiquette'", "Étiquette"), N("'Ωmega'", "Ωmega"), N("'étiquette'", "étiquette"), N("-0.0", math.Copysign(0, -1)), N("'-0'", "-0"), N("'-0.0'", "-0.0"), N("float32 -0", float32(math.Copysign(0, -1))), NilSafePointer(), N("embeds a nil SafeValue as key", EmbedsSafe{}), N("opinionated safe 1", OpinionatedSafe{Inner: 1}), N("'Secret'", "Secret"), N("'secret'", "secret"), N("'Open'", "Open"), N("'Kids'", "Kids"), N("'GetSecret'", "GetSecret"), N("'IsOpen'", "IsOpen"), N("'HasKids'", "HasKids"), N("'Get'", "Get"), N("'count'", "count"),
 		N("'Items'", "Items"), N("'Inner'", "Inner"), N("'Any'", "Any"), N("'Attrs'", "Attrs"), N("'ID'", "ID"), N("'note'", "note"), N("'innerLower'", "innerLower"), N("'A'", "A"), N("'B'", "B"), N("'C'", "C"), N("'N'", "N"), N("'Extra'", "Extra"), N("'Hello'", "Hello"), N("'PtrHello'", "PtrHello"), N("'String'", "String"), N("'Number'", "Number"), N("'Boolean'", "Boolean"), N("'Tag'", "Tag"), N("'PP'", "PP"), N("'Next'", "Next"), N("KeyStr('a')", KeyStr("a")), N("KeyStringer('a')", KeyStringer("a")), N("OuterIface{slice}", OuterIface{Any: []int{1}}), N("KeyInt(1)", KeyInt(1)), N("'true'", "true"),
 		// strings that strconv.ParseFloat accepts but that are no usable index
 		N("'NaN'", "NaN"), N("'nan'", "nan"), N("'Inf'", "Inf"), N("'-Inf'", "-Inf"), N("'+Infinity'", "+Infinity"), N("'1e400'", "1e400"), N("'0x1'", "0x1"), N("'0x1p-2'", "0x1p-2"),
@@ -270,7 +276,7 @@ func ArgLists() [][]stick.Value {
 		{}, {1}, {1, 2}, {1, 2, 3}, {"a"}, {"a", "b"}, {nil}, {nil, nil}, {1.5}, {1.5, 2.0}, {2.0, 3.0}, {"1", "2"}, {true}, {&th}, {nilThing}, {th},
 		{[]int{1, 2}}, {[]stick.Value{1}}, {1, "b"}, {int64(1), int8(2)}, {math.NaN()}, {func() {}},
 		// numbers that do not fit the parameter: negative for unsigned, too large, wrapping around
-		{-1}, {int64(-1)}, {300}, {uint64(1 << 63)}, {-129}, {int8(-1)}, {1e30}, {-0.0},
+		{-1}, {int64(-1)}, {300}, {uint64(1 << 63)}, {-129}, {int8(-1)}, {1e30}, {math.Copysign(0, -1)}, {float32(math.Copysign(0, -1)), math.Copysign(0, -1)}, {"-0"},
 		// unsigned values with the top bit set: no signed type of that size holds them
 		{uint8(200)}, {uint16(65535)}, {uint32(1 << 31)}, {uint64(math.MaxUint64)}, {uint(math.MaxUint64)}, {uint8(127)}, {uint8(128)}, {int8(-128)}, {int16(-1)}, {uint8(255), uint8(1)},
 	}
@@ -490,3 +496,13 @@ type (
 	DeepI11 struct{ DeepI10 }
 	DeepI12 struct{ DeepI11 }
 )
+
+// NilableNum / NilableBool: a map type with a Number method and a function type with a Boolean method - their nil
+// values have methods that can be called.
+type (
+	NilableNum  map[string]int
+	NilableBool func() bool
+)
+
+func (n NilableNum) Number() float64 { return float64(40 + len(n)) }
+func (f NilableBool) Boolean() bool  { return f == nil }
